@@ -23,7 +23,7 @@ from hv.common import rng_for
 ID = "C13"
 LEVEL = "exploration"
 RULE = ("one evaluation = one Hy source compiled in k fresh processes (PYTHONHASHSEED 0,1,2,3 quick; 0..11 and one "
-        "pseudo-random 32-bit seed thorough); a case is a batch of 60-120 sources. Sources are generated to pass "
+        "pseudo-random 32-bit seed thorough); a case is a batch of 40-80 sources. Sources are generated to pass "
         "through every name set of the compiler: nonlocal/global declarations of 2-6 names resolved at mixed levels "
         "(module, outer function, let, middle function), comprehensions leaking several setv/setx names in module, "
         "function and let scope, let with many bindings, defclass, match captures (or-patterns, mapping rest), "
@@ -32,7 +32,7 @@ RULE = ("one evaluation = one Hy source compiled in k fresh processes (PYTHONHAS
         "compiled AST has a global/nonlocal declaration, a leak assignment or an or-pattern with >= 2 names; "
         "distinct by source text.")
 FLOOR = {"quick": 500, "thorough": 500}
-BUDGET = {"quick": 32, "thorough": 480}
+BUDGET = {"quick": 27, "thorough": 480}
 CASE_TIMEOUT = 150
 REPLAY_TIMEOUT = 300
 NEEDS_EVENTS = True
@@ -113,7 +113,15 @@ def g_leak(rng):
         inner = f"(lfor {xs[1]} (range 2) :do (setv {asg}) {xs[1]})"
         body = f"{xs[0]} {inner}" if form == "dfor" else inner
     comp = f"({form} {xs[0]} (range 3) {body})"
-    where = rng.choice(["module", "fn", "fnlet", "class", "nested-fn"])
+    where = rng.choice(["module", "fn", "fnlet", "class", "nested-fn", "comp-nonlocal"])
+    if where == "comp-nonlocal" and len(tg) >= 3:
+        # a nonlocal declaration of several names inside the comprehension body
+        decl = tg[:-1]
+        rng.shuffle(decl)
+        comp = (f"({form} {xs[0]} (range 3) :do (do (nonlocal {' '.join(decl)}) (setv {asg})) "
+                + (f"{xs[0]} {xs[0]}" if form == "dfor" else xs[0]) + ")")
+        return (f"(defn outer-f [] (setv {' '.join(f'{d} 0' for d in decl)}) "
+                f"(defn f [] (setv r {comp}) r) (f))\n(outer-f)")
     if where == "module":
         return f"(setv r {comp})"
     if where == "fn":
@@ -220,7 +228,7 @@ def cases(seed, tier, shard, nshards):
     while True:
         rng = rng_for(seed, ID, shard, i)
         i += 1
-        n = rng.choice([60, 90, 120])
+        n = rng.choice([40, 60, 80])
         srcs = []
         for j in range(n):
             r = rng.random()
@@ -343,17 +351,27 @@ def run_case(case):
     # ---- a source compiled differently under different hash seeds: witness + attribution
     btexts = [texts[i] for i in bad]
     whys = []
-    detail = compile_batch(btexts[:4], seeds, "dump", "dump")
-    for j, i in enumerate(bad[:4]):
+    # one more round of children: unparsed text of the differing sources (witness) and the same
+    # sources with every multi-name `nonlocal` form split into single-name forms (attribution)
+    both = compile_batch(btexts + [split_nonlocal(t) for t in btexts], seeds, "dump", "dump")
+    have = all(v is not None and len(v) == 2 * len(btexts) for v in both.values())
+    nb = len(btexts)
+    attributed = [bool(have and _NONLOCAL.search(btexts[j])
+                       and len({verdict_of(both[sd][nb + j]) for sd in seeds}) == 1
+                       and only_nonlocal_order_differs([both[sd][j].get("unparsed") for sd in seeds]))
+                  for j in range(nb)]
+    order = sorted(range(nb), key=lambda j: attributed[j])          # unattributed witnesses first
+    for j in order[:4]:
+        i = bad[j]
         per = {sd: res[sd][i] for sd in seeds}
         groups = {}
         for sd in seeds:
-            groups.setdefault(verdict_of(per[sd])[:2], []).append(sd)
+            groups.setdefault(verdict_of(per[sd]), []).append(sd)
         w = f"source #{i} ({srcs[i]['g']}) compiles differently under PYTHONHASHSEED groups {list(groups.values())}: "
-        if all(detail.get(sd) for sd in seeds):
+        if have:
             un = {}
             for sd in seeds:
-                un.setdefault(detail[sd][j].get("unparsed", detail[sd][j].get("err")), []).append(sd)
+                un.setdefault(both[sd][j].get("unparsed", both[sd][j].get("err")), []).append(sd)
             if len(un) > 1:
                 a, b = list(un)[:2]
                 la, lb = (a or "").splitlines(), (b or "").splitlines()
@@ -361,17 +379,37 @@ def run_case(case):
                 w += f"e.g. seed {un[a][0]} emits {[d[0].strip() for d in diff]} where seed {un[b][0]} emits " \
                      f"{[d[1].strip() for d in diff]}; "
             else:
-                w += "same unparsed text (difference is in positions or code object only); "
+                w += "same unparsed text (the difference is in positions or in the code object only); "
         w += f"source: {texts[i][:500]}"
         whys.append(w)
-    out.update(ok=False, why=f"{len(bad)} of {len(texts)} sources; " + " || ".join(whys))
-    # attribution: multi-name nonlocal declarations resolved at mixed levels
-    if all(_NONLOCAL.search(t) for t in btexts):
-        norm = compile_batch([split_nonlocal(t) for t in btexts], seeds, "norm")
-        if all(v is not None and len(v) == len(btexts) for v in norm.values()):
-            if all(len({verdict_of(norm[sd][j]) for sd in seeds}) == 1 for j in range(len(btexts))):
-                out["finding"] = KEY_NONLOCAL
+    out.update(ok=False, why=f"{nb} of {len(texts)} sources ({sum(attributed)} of them only differ in the name order "
+               f"of a multi-name nonlocal statement); " + " || ".join(whys))
+    if all(attributed):
+        out["finding"] = KEY_NONLOCAL
     return out
+
+
+def only_nonlocal_order_differs(unparsed):
+    """the emitted programs differ only in the order of names inside `nonlocal` statements"""
+    if any(u is None for u in unparsed):
+        return False
+    lines = [u.splitlines() for u in unparsed]
+    if len({len(l) for l in lines}) != 1:
+        return False
+    differs = False
+    for row in zip(*lines):
+        if len(set(row)) == 1:
+            continue
+        keys = set()
+        for x in row:
+            x = x.strip()
+            if not x.startswith("nonlocal "):
+                return False
+            keys.add(tuple(sorted(n.strip() for n in x[len("nonlocal "):].split(","))))
+        if len(keys) != 1:
+            return False
+        differs = True
+    return differs
 
 
 def finish_worker():
